@@ -38,6 +38,8 @@ type fragCase struct {
 	EOF int `json:"eof"`
 	// Follow: a later call on the same client must not change the reply already returned
 	Follow bool `json:"follow,omitempty"`
+	// ExplicitParser: the client's configuration names the standard response parser explicitly (see cli.Scenario)
+	ExplicitParser bool `json:"explicit_parser,omitempty"`
 }
 
 // Replies computes the reply (and the normal reply length) from the device model.
@@ -113,7 +115,7 @@ func prepare(c fragCase) (prepared, error) {
 	p.predicted = cli.Model(c.Kind, reply, ev, E)
 	p.affected = known && (p.predicted.Timeout || p.predicted.Total != len(reply))
 	// (no later call where an open finding makes the client wait for more bytes than the reply has: it would only end by the read timeout)
-	p.sc = cli.Scenario{Kind: c.Kind, Req: c.Req, Stream: reply, Events: ev, Follow: c.Follow && E <= normalLen}
+	p.sc = cli.Scenario{Kind: c.Kind, Req: c.Req, Stream: reply, Events: ev, Follow: c.Follow && E <= normalLen, ExplicitParser: c.ExplicitParser}
 	if p.affected && p.predicted.Timeout {
 		p.sc.ReadTimeoutMs = 25
 	}
@@ -262,6 +264,7 @@ func genFrag(t *rapid.T, kinds []string) fragCase {
 		c.GapKind = "timeout"
 		c.EOF = rapid.SampledFrom([]int{0, 0, 0, 1, 2}).Draw(t, "eof")
 	}
+	c.ExplicitParser = !cli.IsSerial(c.Kind) && rapid.IntRange(0, 3).Draw(t, "explicit_parser") == 0
 	c.Follow = c.ExcCode == 0 && rapid.IntRange(0, 3).Draw(t, "follow") == 0
 	return c
 }
